@@ -58,10 +58,16 @@ Proof.
 Qed.
 #[export] Hint Resolve sfx_ty sfx_type : sfxdb.
 
+(* deterministic: peel the printers of the enclosing text from the outside in *)
+Ltac sfx_step :=
+  first [ apply sfx_refl | apply sfx_app_r | apply sfx_cons_r | apply sfx_blank | apply sfx_type | apply sfx_ty
+        | apply sfx_ocpp | apply sfx_path_tail | apply sfx_path | apply sfx_lit | apply sfx_sep | apply sfx_anns ].
+Ltac sfx_of H := eapply sfx_trans; [|exact H]; repeat sfx_step.
+
 Lemma sfx_lt lf whole t : length whole < lf -> sfx t whole -> length t < lf.
 Proof. intros H S. apply sfx_len in S. lia. Qed.
 
-Ltac sfx_of H := eapply sfx_trans; [|exact H]; auto 60 with sfxdb.
+Ltac sfx_of0 H := eapply sfx_trans; [|exact H]; auto 60 with sfxdb.
 
 (* ---------- heads ---------- *)
 Lemma blank_start_not_identch b : blank_start b = true -> identch b = false.
@@ -363,7 +369,7 @@ Proof.
     ob H2 S.
     assert (F3 : tyfollow lf (type_ends_word inner) (pr_blank b3 (txt ">" ++ pr_ocpp None k)))
       by (apply (tyfollow_punct _ b3 x3e); [assumption|tauto]).
-    cbn [pr_ocpp] in F3. rewrite (IHT inner _ ltac:(lia) H1 Hsi F3 ltac:(sfx_of S)). cbn [pbind].
+    cbn [pr_ocpp] in F3. rewrite (IHT inner _ ltac:(clear - Hd; lia) H1 Hsi F3 ltac:(sfx_of S)). cbn [pbind].
     ob H0 S.
     change sym_list_gt with (txt ">"). rewrite tag_ok. cbn [pbind].
     rewrite (follow_nocpp _ k Hf) by (sfx_of S). reflexivity.
@@ -383,7 +389,7 @@ Proof.
     ob H1 S.
     assert (F3 : tyfollow lf (type_ends_word inner) (pr_blank b3 (txt ">" ++ k)))
       by (apply (tyfollow_punct _ b3 x3e); [assumption|tauto]).
-    rewrite (IHT inner _ ltac:(lia) H0 Hsi F3 ltac:(sfx_of S)). cbn [pbind].
+    rewrite (IHT inner _ ltac:(clear - Hd; lia) H0 Hsi F3 ltac:(sfx_of S)). cbn [pbind].
     ob H S.
     change sym_set_gt with (txt ">"). rewrite tag_ok. reflexivity.
   - (* map *)
@@ -404,7 +410,10 @@ Proof.
     ob H4 S.
     assert (Fk : tyfollow lf (type_ends_word key) (pr_blank b3 (sep_byte semi :: pr_blank b4 (pr_type value (pr_blank b5 (txt ">" ++ k)))))).
     { apply tyfollow_punct; [assumption|]. destruct semi; cbn [sep_byte]; tauto. }
-    rewrite (IHT key _ ltac:(lia) H3 Hsk Fk ltac:(sfx_of S)). cbn [pbind].
+    assert (Dk : type_depth key < d) by (clear - Hd; lia). assert (Dv : type_depth value < d) by (clear - Hd; lia).
+    assert (Sk : sfx (pr_type key (pr_blank b3 (sep_byte semi :: pr_blank b4 (pr_type value (pr_blank b5 (txt ">" ++ k)))))) whole) by (sfx_of S).
+    assert (Sv : sfx (pr_type value (pr_blank b5 (txt ">" ++ k))) whole) by (sfx_of S).
+    pose proof (IHT key _ Dk H3 Hsk Fk Sk) as Ek. rewrite Ek. cbn [pbind].
     ob H2 S.
     unfold p_list_separator. cbn [one_of].
     assert (M : bmem (sep_byte semi) set_list_separator = true) by (destruct semi; reflexivity). rewrite M. cbn [pbind].
@@ -412,7 +421,7 @@ Proof.
     rewrite (opt_err (p_blank lf)) by (apply blank_err, (type_head_nb value _ H0 Hsv)). cbn [pbind].
     assert (F5 : tyfollow lf (type_ends_word value) (pr_blank b5 (txt ">" ++ k)))
       by (apply (tyfollow_punct _ b5 x3e); [assumption|tauto]).
-    rewrite (IHT value _ ltac:(lia) H0 Hsv F5 ltac:(sfx_of S)). cbn [pbind].
+    pose proof (IHT value _ Dv H0 Hsv F5 Sv) as Ev. rewrite Ev. cbn [pbind].
     ob H S.
     change sym_map_gt with (txt ">"). rewrite tag_ok. reflexivity.
   - (* path *)
@@ -427,9 +436,6 @@ Proof.
     rewrite alt_skip.
     2:{ unfold base_alts. repeat apply Forall_cons; try apply Forall_nil;
           (apply base_ident_err; [reflexivity|exact Hh|exact Hrest|assumption]). }
-    assert (Hb : forall c r, identch c = true ->
-              is_perr (opt (fun i => do i0, _ <- p_blank lf i;; p_cpp_type lf i0) (c :: r)) -> False) by (intros; exact I || auto).
-    clear Hb.
     rewrite alt_err.
     2:{ apply (container_word_err kw_ty_list _ h _ eq_refl Hh Hrest); [assumption|]. intros c r Hc.
         rewrite (opt_err (p_blank lf)) by (now apply identch_not_blank). cbn [pbind]. apply pbind_err.
@@ -444,7 +450,7 @@ Proof.
         rewrite opt_err by (apply pbind_err; now apply identch_not_blank). cbn [pbind].
         rewrite (opt_err (p_blank lf)) by (now apply identch_not_blank). cbn [pbind]. apply pbind_err.
         change sym_map_lt with [x3c]. now apply identch_not_lt. }
-    cbn [alt]. unfold pmap.
+    cbn [alt]. unfold pmap. change (h ++ pr_path_tail tl k) with (pr_path (mkCPath h tl) k).
     rewrite (rt_path lf whole Hlf (mkCPath h tl) k Hwp (conj Hk1 (follow_nodot _ k Hf ltac:(sfx_of S))) S). reflexivity.
 Qed.
 
@@ -461,3 +467,30 @@ Proof.
 Qed.
 
 End Types.
+
+(* layout independence for types: two layouts of the same type parse to the same tree *)
+Corollary type_layout_free lf whole1 whole2 df t1 t2 k1 k2 :
+  length whole1 < lf -> length whole2 < lf ->
+  type_depth t1 < df -> wf_type t1 = true -> simple_type t1 = true -> tyfollow lf (type_ends_word t1) k1 -> sfx (pr_type t1 k1) whole1 ->
+  type_depth t2 < df -> wf_type t2 = true -> simple_type t2 = true -> tyfollow lf (type_ends_word t2) k2 -> sfx (pr_type t2 k2) whole2 ->
+  erase_type t1 = erase_type t2 ->
+  exists a, p_type lf df (pr_type t1 k1) = POk k1 a /\ p_type lf df (pr_type t2 k2) = POk k2 a.
+Proof.
+  intros L1 L2 D1 W1 S1 F1 X1 D2 W2 S2 F2 X2 E. exists (erase_type t1). split.
+  - exact (rt_type lf whole1 L1 df t1 k1 D1 W1 S1 F1 X1).
+  - rewrite E. exact (rt_type lf whole2 L2 df t2 k2 D2 W2 S2 F2 X2).
+Qed.
+
+(* non-vacuity: map /*c*/ < listing , list<i32x>#h\n > followed by " x" -- a keyword-prefixed path, all three
+   comment styles of blank; the hypotheses of rt_type hold and the parser returns the erased tree *)
+Example rt_type_example :
+  let t := CType (CTMap None [BBlock (txt "c")] [BWs (txt " ")]
+                   (CType (CTPath (mkCPath (txt "listing") [])) None) [BWs (txt " ")] false []
+                   (CType (CTList [] [] (CType (CTPath (mkCPath (txt "i32x") [([], [BLine (txt "d"); BWs [x0a]], txt "optionalFoo")])) None) [] None) None)
+                   [BHash (txt "h"); BWs [x0a]]) None in
+  let k := txt " x" in
+  wf_type t = true /\ simple_type t = true /\ type_depth t = 2 /\
+  p_type 100 3 (pr_type t k) = POk k (erase_type t) /\
+  erase_type t = MkType (TMap (MkType (TPath [txt "listing"]) [])
+                              (MkType (TList (MkType (TPath [txt "i32x"; txt "optionalFoo"]) []) None) []) None) [].
+Proof. vm_compute. repeat split. Qed.
